@@ -150,7 +150,7 @@ def rand_index(rng, w, valid_bias=0.85):
     return {"s": s, "e": e, "st": st}
 
 
-LEAVES = [("sig", "a"), ("sig", "b"), ("pref", "i0.q"), ("bref", "bb.s"), ("bref", "bb.sub.s")]
+LEAVES = [("sig", "a"), ("sig", "b"), ("pref", "i0.q"), ("bref", "bb.s"), ("bref", "bb.sub.s"), ("pref", "e0.q")]
 
 
 def rand_tree(rng, depth, widths):
@@ -196,7 +196,7 @@ def py_bits(t):
 
 
 def model_name(leaf):
-    return {"a": "a", "b": "b", "i0.q": "i0_q", "bb.s": "bb_s", "bb.sub.s": "bb_sub_s"}[leaf["n"]]
+    return {"a": "a", "b": "b", "i0.q": "i0_q", "bb.s": "bb_s", "bb.sub.s": "bb_sub_s", "e0.q": "e0_q"}[leaf["n"]]
 
 
 def to_model(t):
@@ -214,6 +214,12 @@ def unit_only(t):
     if t["k"] == "concat":
         return all(unit_only(p) for p in t["ps"])
     return ("i" in t["i"] or t["i"].get("st") in (None, 1)) and unit_only(t["p"])
+
+
+def beyond_only(t):
+    """the tree is invalid only by Python's list semantics of this harness where the property leaves the choice (a bound beyond [-w, w]):
+    never true here, since py_bits follows Python there; kept as the one place to exempt such a case"""
+    return False
 
 
 def has_single_concat_of_concat(t):
@@ -241,12 +247,15 @@ def build_and_export(case):
     m.b = h.Signal(width=widths["b"])
     m.bb = B()
     m.i0 = src()
+    # (a port of an ExternalModule instance: its width is looked up in a port list, not in a module)
+    ext = h.ExternalModule(name="ExtSrc", port_list=[h.Port(name="q", width=widths.get("e0.q", 1))], paramtype=h.HasNoParams)
+    m.e0 = ext()()
 
     def mk(t):
         if t["k"] == "leaf":
             if t["kind"] == "bref":
                 return m.bb.s if t["n"] == "bb.s" else m.bb.sub.s
-            return {"a": m.a, "b": m.b}[t["n"]] if t["kind"] == "sig" else m.i0.q
+            return {"a": m.a, "b": m.b}[t["n"]] if t["kind"] == "sig" else (m.i0.q if t["n"] == "i0.q" else m.e0.q)
         if t["k"] == "slice":
             return mk(t["p"])[idx_py(t["i"])]
         return h.Concat(*[mk(p) for p in t["ps"]])
@@ -268,6 +277,9 @@ def build_and_export(case):
     keep = h.Module(name="Keep")
     keep.x = h.Port(width=widths["i0.q"])
     m.k = keep(x=m.i0.q)
+    keep2 = h.Module(name="Keep2")
+    keep2.x = h.Port(width=widths.get("e0.q", 1))
+    m.k2 = keep2(x=m.e0.q)
     try:
         pkg = h.to_proto(m)
     except Exception as e:
@@ -320,13 +332,48 @@ def stride_family(ws=(6, 7)):
                     yield {"tree": t, "widths": widths, "sinkw": len(b) if b else 1}
 
 
+def chain_family(w=8):
+    """Slices of slices of slices (and one level more): every level with its own offset, some reversed, the last an integer or a range."""
+    leaves = [{"k": "leaf", "kind": "sig", "n": "a", "w": w}, {"k": "leaf", "kind": "pref", "n": "e0.q", "w": w}]
+    widths = {"a": w, "b": 1, "i0.q": 1, "bb.s": 1, "e0.q": w}
+    firsts = [{"s": 1, "e": w, "st": None}, {"s": 0, "e": w - 1, "st": None}, {"s": None, "e": None, "st": -1}, {"s": 2, "e": None, "st": None}]
+    seconds = [{"s": 2, "e": 5, "st": None}, {"s": 1, "e": None, "st": None}, {"s": 4, "e": 0, "st": -1}, {"s": 0, "e": 4, "st": None}]
+    thirds = [{"i": 0}, {"i": 1}, {"i": -1}, {"s": 1, "e": 3, "st": None}, {"s": None, "e": None, "st": -1}]
+    for k, (i1, i2, i3) in enumerate(itertools.product(firsts, seconds, thirds)):
+        t = {"k": "slice", "p": {"k": "slice", "p": {"k": "slice", "p": leaves[k % 2], "i": i1}, "i": i2}, "i": i3}
+        b = py_bits(t)
+        if b:
+            yield {"tree": t, "widths": widths, "sinkw": len(b)}
+            if len(b) > 1:
+                t4 = {"k": "slice", "p": t, "i": {"i": len(b) - 1}}
+                yield {"tree": t4, "widths": widths, "sinkw": 1}
+
+
+def invalid_part_family():
+    """An index that must be refused, as a part of a concatenation — also where a slice of the concatenation takes only the
+    valid part: asking for the width, and elaborating, must raise."""
+    for w in (2, 3):
+        a = {"k": "leaf", "kind": "sig", "n": "a", "w": w}
+        b = {"k": "leaf", "kind": "sig", "n": "b", "w": 2}
+        widths = {"a": w, "b": 2, "i0.q": 1, "bb.s": 1, "e0.q": 1}
+        for bad in ({"i": w}, {"i": -w - 1}, {"i": 2 * w}, {"s": 1, "e": 1, "st": None}, {"s": w, "e": w + 2, "st": None}):
+            part = {"k": "slice", "p": a, "i": bad}
+            for t in ({"k": "concat", "ps": [b, part]}, {"k": "concat", "ps": [part, b]},
+                      {"k": "slice", "p": {"k": "concat", "ps": [b, part]}, "i": {"s": 0, "e": 2, "st": None}},
+                      {"k": "slice", "p": {"k": "concat", "ps": [b, part]}, "i": {"i": 0}},
+                      {"k": "slice", "p": {"k": "concat", "ps": [part, b]}, "i": {"s": -2, "e": None, "st": None}}):
+                yield {"tree": t, "widths": widths, "sinkw": 2 if t["k"] == "slice" and "s" in t["i"] else (1 if t["k"] == "slice" else 3)}
+
+
 def stream_b(ctx):
     rep, rng = ctx.rep, ctx.rng
     n = 400 if ctx.quick else 6000
     cases = list(pair_family(3)) + ([] if ctx.quick else list(pair_family(4))) + list(stride_family((6,) if ctx.quick else (6, 7)))
+    cases += list(chain_family(8)) + ([] if ctx.quick else list(chain_family(7))) + list(invalid_part_family())
     rep.extra["pair_family"] = len(cases)
     for k in range(n):
-        widths = {"a": rng.randint(1, 5), "b": rng.randint(1, 4), "i0.q": rng.randint(1, 4), "bb.s": rng.randint(1, 4), "bb.sub.s": rng.randint(1, 6)}
+        widths = {"a": rng.randint(1, 5), "b": rng.randint(1, 4), "i0.q": rng.randint(1, 4), "bb.s": rng.randint(1, 4), "bb.sub.s": rng.randint(1, 6),
+                  "e0.q": rng.randint(1, 5)}
         t = rand_tree(rng, rng.choice([1, 2, 2, 3, 3]), widths)
         bits = py_bits(t)
         cases.append({"tree": t, "widths": widths, "sinkw": len(bits) if bits else 1})
@@ -357,6 +404,8 @@ def stream_b(ctx):
                 sigw = impl["export"]["sigw"]
                 bad = [b for b in got if not (0 <= b[1] < sigw.get(b[0], 0))]
                 rep.fail("pred", case, {"why": "invalid index/empty slice exported", "exported": got, "out_of_range": bad})
+            elif "ok" in impl["width"] and not beyond_only(c["tree"]):
+                rep.fail("pred", case, {"why": "an index that must be refused was still accepted when the width was asked for", "impl": impl["width"]})
             continue
         stats["valid"] += 1
         if impl["width"] != {"ok": len(bits)}:
